@@ -1,4 +1,5 @@
 import McpModel.Negotiate.Model
+import McpModel.Negotiate.Peer
 /-!
 # C07 — property theorems for version negotiation (model: `Negotiate.connect`)
 
@@ -179,10 +180,6 @@ theorem default_is_latest (wireOK : String → Bool) (S : Setup) :
   unfold connect
   rw [this]
 
-/-- The version the legacy handshake is attempted with. -/
-def legacyRequest (requested : Option String) : String :=
-  if startVersion requested < modern then startVersion requested else fallbackVersion
-
 /-- **fallback_when_no_modern_overlap.** Whenever discovery is unavailable (the discover exchange
 does not get through) or the transport advertises no version ≥ 2026-07-28, the outcome of `connect`
 is exactly the outcome of the initialize handshake (with the requested version when it is below the
@@ -255,6 +252,328 @@ theorem error_only_without_legacy (wireOK : String → Bool) (requested : Option
     | some n => rw [hd] at h; cases h
     | none => rw [hd] at h; exact hi _ h
 
+
+/-! ## The client against an arbitrary peer (`connectPeer`), and one Server connected repeatedly -/
+
+theorem pickC_mem {vs : List String} {v : String} (h : pickC vs v ≠ "") :
+    pickC vs v ∈ vs ∧ pickC vs v ∈ supportedProtocolVersions := by
+  unfold pickC at h ⊢
+  by_cases hc : (vs.contains v && supportedProtocolVersions.contains v) = true
+  · rw [if_pos hc]
+    simp only [Bool.and_eq_true] at hc
+    exact ⟨by simpa using hc.1, by simpa using hc.2⟩
+  · rw [if_neg hc] at h ⊢; exact mutual_mem _ h
+
+/-- Against a probe naming an SDK-supported version the F30 conjunct is redundant. -/
+theorem pickC_eq_pick {vs : List String} {v : String} (h : supportedProtocolVersions.contains v = true) :
+    pickC vs v = pick vs v := by
+  unfold pickC pick
+  rw [h, Bool.and_true]
+
+theorem clientDiscover_ok {resp : DiscResp} {v n : String} (h : clientDiscover resp v = .ok n) :
+    ∃ vs, resp = .result vs ∧ n ∈ vs ∧ n ∈ supportedProtocolVersions ∧ ¬ n < modern := by
+  unfold clientDiscover at h
+  cases resp with
+  | unavailable => cases h
+  | unsupported d => cases h
+  | result vs =>
+    simp only at h
+    by_cases h3 : pickC vs v = "" ∨ pickC vs v < modern
+    · rw [if_pos h3] at h; cases h
+    · rw [if_neg h3] at h
+      injection h with h
+      subst h
+      obtain ⟨h1, h2⟩ := pickC_mem (fun e => h3 (Or.inl e))
+      exact ⟨vs, rfl, h1, h2, fun e => h3 (Or.inr e)⟩
+
+theorem peerLoop_some {P : Peer} {pv n : String} (h : peerLoop P pv = some n) :
+    n ∈ supportedProtocolVersions ∧ ¬ n < modern ∧ (discLists P pv).any (·.contains n) = true := by
+  unfold peerLoop at h
+  cases hd : clientDiscover (P.discover pv) pv with
+  | ok m =>
+    rw [hd] at h; injection h with h; subst h
+    obtain ⟨vs, hr, h1, h2, h3⟩ := clientDiscover_ok hd
+    refine ⟨h2, h3, ?_⟩
+    simp [discLists, hr, h1]
+  | failed => rw [hd] at h; cases h
+  | unsupported data =>
+    rw [hd] at h
+    simp only at h
+    have hresp : P.discover pv = .unsupported data := by
+      unfold clientDiscover at hd
+      cases hp : P.discover pv with
+      | unavailable => rw [hp] at hd; cases hd
+      | unsupported d => rw [hp] at hd; injection hd with hd; rw [hd]
+      | result vs =>
+        rw [hp] at hd; simp only at hd
+        by_cases h3 : pickC vs pv = "" ∨ pickC vs pv < modern
+        · rw [if_pos h3] at hd; cases hd
+        · rw [if_neg h3] at hd; cases hd
+    by_cases hc : negotiateMutuallySupportedVersion data ≠ "" ∧ ¬ negotiateMutuallySupportedVersion data < modern
+    · rw [if_pos hc] at h
+      cases hd2 : clientDiscover (P.discover (negotiateMutuallySupportedVersion data))
+          (negotiateMutuallySupportedVersion data) with
+      | ok m =>
+        rw [hd2] at h; injection h with h; subst h
+        obtain ⟨vs, hr, h1, h2, h3⟩ := clientDiscover_ok hd2
+        refine ⟨h2, h3, ?_⟩
+        simp [discLists, hresp, hc, hr, h1]
+      | failed => rw [hd2] at h; cases h
+      | unsupported d2 => rw [hd2] at h; cases h
+    · rw [if_neg hc] at h; cases h
+
+/-- **peerInit_accepts_iff** (m7's clause). The initialize handshake yields a session exactly when
+the peer answers with a version this SDK implements — membership in the regenerated list, not a
+range test: an unknown in-range string such as "2025-01-15" or "2026-03-01", an out-of-range or a
+malformed one makes Connect fail. -/
+theorem peerInit_accepts_iff (P : Peer) (iv v : String) :
+    peerInit P iv = .negotiated v ↔ P.init iv = some v ∧ v ∈ supportedProtocolVersions := by
+  unfold peerInit
+  cases hi : P.init iv with
+  | none => simp
+  | some w =>
+    simp only
+    by_cases hw : w ∈ supportedProtocolVersions
+    · rw [if_pos hw]
+      constructor
+      · intro h; injection h with h; subst h; exact ⟨rfl, hw⟩
+      · intro ⟨h, _⟩; injection h with h; subst h; rfl
+    · rw [if_neg hw]
+      constructor
+      · intro h; cases h
+      · intro ⟨h, h2⟩; injection h with h; subst h; exact absurd h2 hw
+
+/-- **peer_negotiated_supported.** Against EVERY peer — whatever it answers to server/discover and
+to initialize, for every requested string — Connect fails or the negotiated version is one this
+SDK implements AND one the peer offered: a modern one from a DiscoverResult the client saw, or the
+peer's own answer to the initialize handshake. -/
+theorem peer_negotiated_supported (requested : Option String) (P : Peer) (v : String)
+    (h : connectPeer requested P = .negotiated v) :
+    v ∈ supportedProtocolVersions ∧
+    ((¬ startVersion requested < modern ∧ ¬ v < modern ∧
+        (discLists P (startVersion requested)).any (·.contains v) = true) ∨
+      P.init (legacyRequest requested) = some v) := by
+  unfold connectPeer at h
+  unfold legacyRequest
+  by_cases hlt : startVersion requested < modern
+  · rw [if_pos hlt] at h ⊢
+    obtain ⟨h1, h2⟩ := (peerInit_accepts_iff _ _ _).1 h
+    exact ⟨h2, Or.inr h1⟩
+  · rw [if_neg hlt] at h ⊢
+    cases hl : peerLoop P (startVersion requested) with
+    | some n =>
+      rw [hl] at h; injection h with h; subst h
+      obtain ⟨h1, h2, h3⟩ := peerLoop_some hl
+      exact ⟨h1, Or.inl ⟨hlt, h2, h3⟩⟩
+    | none =>
+      rw [hl] at h
+      obtain ⟨h1, h2⟩ := (peerInit_accepts_iff _ _ _).1 h
+      exact ⟨h2, Or.inr h1⟩
+
+/-- The supported versions listed in `vs` are all below the threshold. -/
+def noModernOverlap (vs : List String) : Prop :=
+  ∀ v ∈ vs, v ∈ supportedProtocolVersions → v < modern
+
+theorem clientDiscover_noOverlap {vs : List String} {v : String} (h : noModernOverlap vs) :
+    clientDiscover (.result vs) v = .failed := by
+  unfold clientDiscover
+  simp only
+  by_cases h3 : pickC vs v = "" ∨ pickC vs v < modern
+  · rw [if_pos h3]
+  · exfalso
+    obtain ⟨h1, h2⟩ := pickC_mem (fun e => h3 (Or.inl e))
+    exact h3 (Or.inr (h _ h1 h2))
+
+/-- **peer_fallback_when_discovery_unavailable_or_no_overlap** (m6's clause). Whenever the probe is
+answered with anything that is not a DiscoverResult or a -32022-with-data (HTTP 404/405/400/5xx text,
+JSON-RPC method-not-found in any status, …), or with a DiscoverResult / -32022 data without a modern
+SDK-supported version, the outcome of Connect is exactly the outcome of the initialize handshake. -/
+theorem peer_fallback_when_discovery_unavailable_or_no_overlap (requested : Option String) (P : Peer)
+    (h : P.discover (startVersion requested) = .unavailable ∨
+      (∃ vs, P.discover (startVersion requested) = .result vs ∧ noModernOverlap vs) ∨
+      (∃ d, P.discover (startVersion requested) = .unsupported d ∧ noModernOverlap d)) :
+    connectPeer requested P = peerInit P (legacyRequest requested) := by
+  unfold connectPeer legacyRequest
+  by_cases hlt : startVersion requested < modern
+  · rw [if_pos hlt, if_pos hlt]
+  · rw [if_neg hlt, if_neg hlt]
+    have hnone : peerLoop P (startVersion requested) = none := by
+      unfold peerLoop
+      rcases h with h | ⟨vs, h, hv⟩ | ⟨d, h, hd⟩
+      · rw [h]; rfl
+      · rw [h, clientDiscover_noOverlap hv]
+      · rw [h]
+        simp only [clientDiscover]
+        by_cases hc : negotiateMutuallySupportedVersion d ≠ "" ∧ ¬ negotiateMutuallySupportedVersion d < modern
+        · exfalso
+          obtain ⟨h1, h2⟩ := mutual_mem d hc.1
+          exact hc.2 (hd _ h1 h2)
+        · rw [if_neg hc]
+    rw [hnone]
+
+/-- **peer_error_only_if_init_fails.** Connect fails only when the initialize handshake fails:
+whatever went wrong with discovery, a peer that answers initialize with a supported version ends
+up with a session. -/
+theorem peer_error_only_if_init_fails (requested : Option String) (P : Peer)
+    (h : connectPeer requested P = .error) : peerInit P (legacyRequest requested) = .error := by
+  unfold connectPeer at h
+  unfold legacyRequest
+  by_cases hlt : startVersion requested < modern
+  · rw [if_pos hlt] at h ⊢; exact h
+  · rw [if_neg hlt] at h ⊢
+    cases hl : peerLoop P (startVersion requested) with
+    | some n => rw [hl] at h; cases h
+    | none => rw [hl] at h; exact h
+
+/-- **peer_requested_honoured_if_mutual.** -/
+theorem peer_requested_honoured_if_mutual (requested : Option String) (P : Peer)
+    (h : peerMutual requested P = true) : connectPeer requested P = .negotiated (startVersion requested) := by
+  unfold peerMutual at h
+  simp only [Bool.and_eq_true] at h
+  obtain ⟨hs, hp⟩ := h
+  have hs' : startVersion requested ∈ supportedProtocolVersions := by simpa using hs
+  have hne : startVersion requested ≠ "" := fun e => empty_not_supported (e ▸ hs')
+  unfold connectPeer
+  by_cases hlt : startVersion requested < modern
+  · rw [if_pos hlt] at hp ⊢
+    exact (peerInit_accepts_iff _ _ _).2 ⟨by simpa using hp, hs'⟩
+  · rw [if_neg hlt] at hp ⊢
+    cases hd : P.discover (startVersion requested) with
+    | unavailable => rw [hd] at hp; cases hp
+    | unsupported d => rw [hd] at hp; cases hp
+    | result vs =>
+      rw [hd] at hp
+      simp only at hp
+      have hpk : pickC vs (startVersion requested) = startVersion requested := by
+        unfold pickC; rw [hp, hs]; rfl
+      have : peerLoop P (startVersion requested) = some (startVersion requested) := by
+        unfold peerLoop clientDiscover
+        rw [hd]
+        simp only [hpk]
+        rw [if_neg (by simp [hne, hlt])]
+      rw [this]
+
+/-- **peerVerdict_model.** The property C07, as the monitor states it for foreign-peer cells, holds
+of the model's outcome for every requested string and every peer (so a monitor alarm on the real
+code is never an artefact of the model). -/
+theorem peerVerdict_model (requested : Option String) (P : Peer) :
+    peerVerdict requested P (connectPeer requested P) = none := by
+  cases hc : connectPeer requested P with
+  | negotiated v =>
+    obtain ⟨h1, h2⟩ := peer_negotiated_supported requested P v hc
+    have h1' : supportedProtocolVersions.contains v = true := by simpa using h1
+    unfold peerVerdict
+    simp only
+    rw [if_neg (by simp [h1])]
+    rw [if_neg (by
+      rintro ⟨hlt, hne⟩
+      rcases h2 with ⟨_, hge, _⟩ | h2
+      · exact hge hlt
+      · exact hne h2)]
+    rw [if_neg (by
+      rintro ⟨_, hne, hno⟩
+      rcases h2 with ⟨a, _, c⟩ | h2
+      · exact hno ⟨a, c⟩
+      · exact hne h2)]
+    rw [if_neg (by
+      rintro ⟨hm, hne⟩
+      have := peer_requested_honoured_if_mutual requested P hm
+      rw [hc] at this
+      injection this with this
+      exact hne this)]
+  | error =>
+    unfold peerVerdict
+    simp only
+    have hm : ¬ peerMutual requested P = true := by
+      intro hm
+      have := peer_requested_honoured_if_mutual requested P hm
+      rw [hc] at this; cases this
+    rw [if_neg hm]
+    have hi := peer_error_only_if_init_fails requested P hc
+    cases hw : P.init (legacyRequest requested) with
+    | none => rfl
+    | some w =>
+      simp only
+      by_cases hs : supportedProtocolVersions.contains w = true
+      · exfalso
+        have := (peerInit_accepts_iff P (legacyRequest requested) w).2 ⟨hw, by simpa using hs⟩
+        rw [hi] at this; cases this
+      · rw [if_neg hs]
+
+/-- **connect_eq_connectPeer.** The SDK x SDK model of `Model.lean` is the instance of `connectPeer`
+at the SDK server: everything proved for all peers holds in every cell of the SDK matrix, and the
+F30 conjunct of `pickC` changes nothing there. -/
+theorem connect_eq_connectPeer (wireOK : String → Bool) (requested : Option String) (S : Setup) :
+    connect wireOK requested S = connectPeer requested (sdkPeer wireOK S) := by
+  have hdisc : ∀ v, clientDiscover ((sdkPeer wireOK S).discover v) v = discoverOnce wireOK S v := by
+    intro v
+    unfold sdkPeer discoverOnce clientDiscover
+    simp only
+    by_cases h1 : wireOK v = false
+    · rw [if_pos h1, if_pos h1]
+    · rw [if_neg h1, if_neg h1]
+      by_cases h2 : supportedProtocolVersions.contains v = false
+      · rw [if_pos h2, if_pos h2]
+      · rw [if_neg h2, if_neg h2]
+        simp only
+        rw [pickC_eq_pick (by simpa using h2)]
+  have hloop : ∀ pv, peerLoop (sdkPeer wireOK S) pv = discoverLoop wireOK S pv := by
+    intro pv
+    unfold peerLoop discoverLoop
+    rw [hdisc pv]
+    cases discoverOnce wireOK S pv with
+    | ok n => rfl
+    | failed => rfl
+    | unsupported data =>
+      simp only
+      rw [hdisc (negotiateMutuallySupportedVersion data)]
+      rfl
+  have hinit : ∀ iv, peerInit (sdkPeer wireOK S) iv = initHandshake S iv := by
+    intro iv
+    unfold peerInit sdkPeer initHandshake
+    simp only
+    by_cases h1 : legacyVersionFor (negotiatedVersion iv) (advertised S) = ""
+    · rw [if_pos h1, if_pos h1]
+    · rw [if_neg h1, if_neg h1]
+  unfold connect connectPeer
+  rw [hloop, hinit, hinit]
+  rfl
+
+/-- **seq_step_history_independent** (m8's clause). On ONE Server value, the outcome of a
+connection is the outcome of that connection on a fresh Server: the version filter belongs to the
+session's own transport, not to the Server or to the transport's type. -/
+theorem seq_step_history_independent (wire : TKind → String → Bool) (σ : Srv) (s : Step) :
+    (σ.step wire s).2 = connect (wire s.setup.kind) s.requested s.setup := rfl
+
+theorem runSeq_eq_map (wire : TKind → String → Bool) (σ : Srv) (steps : List Step) :
+    runSeq wire σ steps = steps.map (fun s => connect (wire s.setup.kind) s.requested s.setup) := by
+  induction steps generalizing σ with
+  | nil => rfl
+  | cons s rest ih => simp [runSeq, Srv.step, ih]
+
+/-- **seq_every_step_supported.** In every sequence of connections to one Server — any length, any
+order of transport configurations, any requested strings — every step fails or negotiates a version
+supported by the SDK and by THAT step's transport (so never 2026-07-28 on a stateful or SSE step,
+whatever was connected before). -/
+theorem seq_every_step_supported (wire : TKind → String → Bool) (σ : Srv) (steps : List Step) :
+    ∀ p ∈ (runSeq wire σ steps).zip steps,
+      p.1 = .error ∨ ∃ v, p.1 = .negotiated v ∧ v ∈ supportedProtocolVersions ∧
+        transportSupports p.2.setup v = true := by
+  rw [runSeq_eq_map]
+  intro p hp
+  have : p.1 = connect (wire p.2.setup.kind) p.2.requested p.2.setup := by
+    induction steps with
+    | nil => simp at hp
+    | cons s rest ih =>
+      simp only [List.map_cons, List.zip_cons_cons, List.mem_cons] at hp
+      rcases hp with hp | hp
+      · subst hp; rfl
+      · exact ih hp
+  rw [this]
+  rcases negotiated_supported (wire p.2.setup.kind) p.2.requested p.2.setup with h | ⟨v, hv, h1, h2, _⟩
+  · exact Or.inl h
+  · exact Or.inr ⟨v, hv, h1, h2⟩
+
 /-! ### Non-vacuity (concrete cells, evaluated) -/
 
 example : connect (fun _ => true) none { kind := .mem, subset := none } = .negotiated "2026-07-28" := by decide
@@ -265,5 +584,28 @@ example : connect (fun _ => true) (some "2024-01-01") { kind := .stateful, subse
 example : connect (fun _ => true) none { kind := .mem, subset := some ["2025-06-18"] } = .negotiated "2025-06-18" := by decide
 /-- … and a transport serving no legacy version makes the legacy handshake fail. -/
 example : connect (fun _ => true) (some "2025-06-18") { kind := .pipe, subset := some ["2026-07-28"] } = .error := by decide
+
+/-! Foreign peers (non-vacuity of the `connectPeer` theorems). -/
+
+/-- a legacy server: discover unavailable (e.g. HTTP 404 text), initialize answered at 2025-06-18 -/
+def legacyPeer : Peer := { discover := fun _ => .unavailable, init := fun _ => some "2025-06-18" }
+example : connectPeer none legacyPeer = .negotiated "2025-06-18" := by decide
+/-- m7's shape: an unknown in-range answer makes Connect fail -/
+example : connectPeer none { legacyPeer with init := fun _ => some "2026-03-01" } = .error := by decide
+example : connectPeer (some "2025-06-18") { legacyPeer with init := fun _ => some "2025-01-15" } = .error := by decide
+/-- F30 repaired: a lax modern peer listing the unknown requested version gets the best mutual one -/
+example : connectPeer (some "2099-12-31")
+    { discover := fun _ => .result ["2099-12-31", "2026-07-28"], init := fun _ => none } = .negotiated "2026-07-28" := by decide
+/-- … and when it lists nothing the SDK implements, the initialize handshake decides -/
+example : connectPeer (some "2099-12-31")
+    { discover := fun _ => .result ["2099-12-31"], init := fun _ => none } = .error := by decide
+/-- renegotiation: -32022 naming 2026-07-28, then a DiscoverResult -/
+example : connectPeer (some "2099-12-31")
+    { discover := fun v => if v = "2026-07-28" then .result ["2026-07-28"] else .unsupported ["2026-07-28"],
+      init := fun _ => none } = .negotiated "2026-07-28" := by decide
+/-- one Server: stateless, then stateful, then stateless again -/
+example : runSeq (fun _ _ => true) {} [⟨none, { kind := .stateless, subset := none }⟩,
+    ⟨none, { kind := .stateful, subset := none }⟩, ⟨none, { kind := .stateless, subset := none }⟩] =
+    [.negotiated "2026-07-28", .negotiated "2025-11-25", .negotiated "2026-07-28"] := by decide
 
 end Negotiate
